@@ -167,7 +167,7 @@ func (m *Menu) Put(selector string, title string) error {
 func (m *Menu) Sizes(ctx context.Context) ([4]uint32, error) {
 	var menuSizes [4]uint32
 	cfg := m.GetBrowseConfig()
-	tmpm := NewMenu().WithBrowseConfig(cfg).WithResource(m.rs)
+	tmpm := NewMenu().WithSeparator(m.sep).WithBrowseConfig(cfg).WithResource(m.rs)
 	v, err := tmpm.Render(ctx, 0)
 	if err != nil {
 		return menuSizes, err
